@@ -19,7 +19,7 @@ theorem pyWs_ok : WsOk pyWs := by
 
 /-- T1: the constants of the model are the constants of the source (regenerated each run). -/
 theorem tables_agree :
-    Gen.cellSeparators = [sep0, sep1] ∧ Gen.cellEscape = escC ∧ Gen.cellTempChar = tmpC ∧
+    Gen.cellSeparators = [sep0, sep1] ∧ Gen.cellEscape = escC ∧ Gen.cellUnescapeSinglePass = true ∧
     Gen.pyWhitespace = pyWhitespaceCodes := by decide
 
 /-- `escape_string` (three `replace` passes) is the single-pass encoder. -/
@@ -32,46 +32,29 @@ theorem split_escaped_atom {sep : Char} (hs : sep = sep0 ∨ sep = sep1) (s : St
   unfold splitBySeparator
   simp [splitRaw_transparent (transparent_esc hs s)]
 
-theorem sublist_rstrip (ws : Char → Bool) (s : Str) : (rstrip ws s).Sublist s := by
-  induction s with
-  | nil => exact List.Sublist.refl _
-  | cons c s ih =>
-    rw [rstrip_cons]
-    split
-    · split
-      · exact List.nil_sublist _
-      · exact List.Sublist.cons_cons c (List.nil_sublist _)
-    · exact List.Sublist.cons_cons c ih
-
-theorem sublist_strip (ws : Char → Bool) (s : Str) : (strip ws s).Sublist s :=
-  (sublist_rstrip ws _).trans (List.dropWhile_sublist _)
-
-theorem tmp_not_mem_strip {ws : Char → Bool} {s : Str} (h : tmpC ∉ s) : tmpC ∉ strip ws s :=
-  fun hm => h ((sublist_strip ws s).subset hm)
-
 /-- `cleanse` of an escaped string is the trimmed original. -/
-theorem cleanse_esc {ws : Char → Bool} (hw : WsOk ws) (s : Str) (h : tmpC ∉ s) :
+theorem cleanse_esc {ws : Char → Bool} (hw : WsOk ws) (s : Str) :
     cleanseStr ws (esc s) = strip ws s := by
   unfold cleanseStr
-  rw [strip_esc hw, unescape_esc _ (tmp_not_mem_strip h)]
+  rw [strip_esc hw, unescape_esc]
 
 /-- **Strings**: parsing the joined text of any string gives the trimmed string — a plain
 string, never a list — whatever mixture of separators and backslashes it contains. -/
-theorem split_join_atom {ws : Char → Bool} (hw : WsOk ws) (s : Str) (h : tmpC ∉ s) :
+theorem split_join_atom {ws : Char → Bool} (hw : WsOk ws) (s : Str) :
     splitIntoLists ws (joinCell (.atom s)) = .atom (strip ws s) := by
   unfold splitIntoLists splitIntoListsRaw
   simp only [joinCell]
   rw [split_escaped_atom (Or.inl rfl), split_escaped_atom (Or.inr rfl)]
-  simp [Cell.map, escapeString_eq_esc, cleanse_esc hw s h]
+  simp [Cell.map, escapeString_eq_esc, cleanse_esc hw s]
 
 /-! ### well-formed two-level values -/
 
 def WFElem : Elem → Prop
-  | .atom s => tmpC ∉ s
-  | .list xs => xs ≠ [] ∧ (∀ x ∈ xs, tmpC ∉ x) ∧ (2 ≤ xs.length → xs.getLast? ≠ some [])
+  | .atom _ => True
+  | .list xs => xs ≠ [] ∧ (2 ≤ xs.length → xs.getLast? ≠ some [])
 
 def WFCell : Cell → Prop
-  | .atom s => tmpC ∉ s
+  | .atom _ => True
   | .list es => es ≠ [] ∧ (∀ e ∈ es, WFElem e) ∧
       (2 ≤ es.length → es.getLast? ≠ some (.atom []))
 
@@ -134,7 +117,7 @@ theorem split1_joinElem (e : Elem) (h : WFElem e) :
       obtain ⟨a, _, rfl⟩ := hp
       rw [escapeString_eq_esc]; exact transparent_esc (Or.inr rfl) a
     have hl : ((x :: y :: xs).map escapeString).getLast? ≠ some [] := by
-      rw [Ne, getLast?_map_esc]; exact h.2.2 (by simp)
+      rw [Ne, getLast?_map_esc]; exact h.2 (by simp)
     simp only [joinElem]
     rw [splitBySeparator_of_pieces
       (splitRaw_joinWith (by decide : sep1 ≠ escC) _ (by simp) hps) (by simp) hl]
@@ -153,12 +136,12 @@ def normalize (ws : Char → Bool) (v : Cell) : Cell := v.map (strip ws)
 theorem cleanse_elem {ws : Char → Bool} (hw : WsOk ws) (e : Elem) (h : WFElem e) :
     (e.map escapeString).map (cleanseStr ws) = e.map (strip ws) := by
   match e, h with
-  | .atom s, h => simp [Elem.map, escapeString_eq_esc, cleanse_esc hw s h]
+  | .atom s, h => simp [Elem.map, escapeString_eq_esc, cleanse_esc hw s]
   | .list xs, h =>
     simp only [Elem.map, List.map_map, Elem.list.injEq]
     apply List.map_congr_left
     intro x hx
-    simp [escapeString_eq_esc, cleanse_esc hw x (h.2.1 x hx)]
+    simp [escapeString_eq_esc, cleanse_esc hw x]
 
 /-- the `|`-level split of a joined well-formed list gives the joined elements -/
 theorem split0_joinCell_list (es : List Elem) (h : WFCell (.list es)) :
@@ -197,7 +180,7 @@ string trimmed. -/
 theorem split_join {ws : Char → Bool} (hw : WsOk ws) (v : Cell) (h : WFCell v) :
     splitIntoLists ws (joinCell v) = normalize ws v := by
   match v, h with
-  | .atom s, h => exact split_join_atom hw s h
+  | .atom s, h => exact split_join_atom hw s
   | .list es, h =>
     unfold splitIntoLists splitIntoListsRaw
     rw [split0_joinCell_list es h]
@@ -309,9 +292,10 @@ theorem needs_no_trailing_blank :
 theorem needs_nonempty :
     splitIntoLists pyWs (joinCell (.list [])) ≠ normalize pyWs (.list []) := by decide
 
-/-- U+0001, the temporary character of `cleanse`, does not survive (known finding F-C08-a) -/
-theorem needs_no_tmp :
-    splitIntoLists pyWs (joinCell (.atom [tmpC])) ≠ normalize pyWs (.atom [tmpC]) := by decide
+/-- former finding F-C08-a (fixed in /repo: `cleanse` no longer goes through a temporary
+character): U+0001 survives like any other character -/
+theorem control_character_survives :
+    splitIntoLists pyWs (joinCell (.atom [Char.ofNat 1])) = normalize pyWs (.atom [Char.ofNat 1]) := by decide
 
 /-! ### non-vacuity -/
 
@@ -320,14 +304,8 @@ example : WFCell (.list [.atom "a|b".toList, .list ["\\".toList, "c;".toList], .
   intro e he
   simp only [List.mem_cons, List.not_mem_nil, or_false] at he
   rcases he with rfl | rfl | rfl
-  · simp [WFElem]; decide
-  · refine ⟨by simp, ?_, by simp⟩
-    intro x hx
-    simp only [List.mem_cons, List.not_mem_nil, or_false] at hx
-    rcases hx with rfl | rfl <;> decide
-  · refine ⟨by simp, ?_, by simp⟩
-    intro x hx
-    simp only [List.mem_cons, List.not_mem_nil, or_false] at hx
-    subst hx; decide
+  · trivial
+  · exact ⟨by simp, by decide⟩
+  · exact ⟨by simp, by decide⟩
 
 end Rpft.Props.C08
